@@ -78,4 +78,46 @@ fn main() {
         println!("F13-ingest: after reopen x = {:?} (deleted key is back = {})", ks.get("x").unwrap().is_some(), ks.get("x").unwrap().is_some());
         drop(ks); drop(db); let _ = std::fs::remove_dir_all(dir);
     }
+    // F10: a sealed journal naming a keyspace that was cleared afterwards is not reclaimed although everything is flushed
+    {
+        let dir = std::path::PathBuf::from("/dev/shm/verif-scratch-f10");
+        let _ = std::fs::remove_dir_all(&dir);
+        let db = fjall::Database::builder(&dir).worker_threads_unchecked(0).open().unwrap();
+        let a = db.keyspace("a", KeyspaceCreateOptions::default).unwrap();
+        let b = db.keyspace("b", KeyspaceCreateOptions::default).unwrap();
+        a.insert("x", "1").unwrap();
+        b.insert("y", "1").unwrap();
+        fjall::verif::verif_rotate_journal(&db).unwrap();
+        a.clear().unwrap();
+        for ks in [&a, &b] { let _ = ks.rotate_memtable().unwrap(); }
+        while fjall::verif::queued_worker_messages(&db) > 0 { let _ = fjall::verif::verif_worker_step(&db); }
+        fjall::verif::verif_journal_maintenance(&db).unwrap();
+        println!("F10: all keyspaces flushed, journal files = {} (property: returns to one)", db.journal_count());
+        drop(a); drop(b); drop(db); let _ = std::fs::remove_dir_all(dir);
+    }
+    // F21: Database drop sends `Close` with a blocking send in a loop; when the last worker takes its
+    // `Close` while the bounded channel is full, and exits, the dropping thread blocks forever
+    {
+        use std::sync::atomic::{AtomicBool, Ordering};
+        use std::sync::Arc;
+        let dir = std::path::PathBuf::from("/dev/shm/verif-scratch-f21");
+        let _ = std::fs::remove_dir_all(&dir);
+        let hold = Arc::new(AtomicBool::new(true));
+        let h2 = hold.clone();
+        fjall::verif::pause::set(Some(Arc::new(move |name: &'static str| {
+            if name == "worker.closing" { while h2.load(Ordering::Acquire) { std::thread::sleep(std::time::Duration::from_millis(1)); } }
+        })));
+        let db = fjall::Database::builder(&dir).worker_threads(1).open().unwrap();
+        let done = Arc::new(AtomicBool::new(false));
+        let d2 = done.clone();
+        let t = std::thread::spawn(move || { drop(db); d2.store(true, Ordering::Release); });
+        // the worker has taken its Close and is about to leave; the dropping thread keeps sending
+        std::thread::sleep(std::time::Duration::from_millis(1500));
+        hold.store(false, Ordering::Release); // the worker leaves now
+        std::thread::sleep(std::time::Duration::from_millis(1500));
+        let finished = done.load(Ordering::Acquire);
+        println!("F21: drop(Database) returned within 1.5 s after the last worker left = {finished}");
+        fjall::verif::pause::set(None);
+        if finished { t.join().unwrap(); let _ = std::fs::remove_dir_all(dir); }
+    }
 }
